@@ -114,15 +114,28 @@ func (ts *Timers) Add(ctx context.Context, id string, message interface{}, in ti
 
 			// Not exactly what we want ...
 		case <-timer.C:
+			// The timer is due.  Fire only if it is still
+			// the pending timer for this id (a Rem that got
+			// the lock first has cancelled it), and remove
+			// it before emitting: the id is free from the
+			// moment the timer fires, so the handler of the
+			// message can make a new timer with the same
+			// id, and we must not remove that one later.
+			//
+			// See https://github.com/Comcast/sheens/issues/19
+			ts.Lock()
+			current, have := ts.timers[id]
+			if !have || current != te {
+				ts.Unlock()
+				return
+			}
+			delete(ts.timers, id)
+			ts.Unlock()
+
 			Logf("Timers firing %s", JS(ts))
 			if err := ts.emit(ctx, te.Message); err != nil {
 				ts.err(fmt.Errorf("Timers emit error %v id=%s", err, id))
 			}
-
-			// See https://github.com/Comcast/sheens/issues/19
-			ts.Lock()
-			delete(ts.timers, id)
-			ts.Unlock()
 		}
 	}()
 
